@@ -69,14 +69,38 @@ Definition frame (log2 : N) (x : page) : Prop :=
 
 Definition key_eq (a b : page) : Prop := pg_pid a = pg_pid b /\ pg_vaddr a = pg_vaddr b.
 
+(** physical ranges as sets of naturals *)
+Definition disjoint (a q : page) : Prop :=
+  pg_paddr a + pg_size a <= pg_paddr q \/ pg_paddr q + pg_size q <= pg_paddr a.
+
+(** the frame [c, c + 2^log2) meets the physical range of [q] *)
+Definition meets (log2 c : N) (q : page) : Prop := c < pg_paddr q + pg_size q /\ pg_paddr q < c + 2 ^ log2.
+
+(** THE condition under which the equality probe of allocatePhysicalPage is enough: every frame
+    (aligned address) that meets the physical range of a page of the table is the PAddr of some
+    page of the table, so the probe never hands it out.  (Frames, empty pages, pages of the
+    frame size at aligned addresses, larger pages all of whose frames are themselves mapped ... ) *)
+Definition alias_ok (log2 : N) (t : table) : Prop :=
+  forall q, inpages t q -> forall c, c mod 2 ^ log2 = 0 -> meets log2 c q ->
+    exists q', inpages t q' /\ pg_paddr q' = c.
+
 (** [A] = pages created by auto-allocation so far *)
-Record tinv (log2 : N) (A : list page) (t : table) : Prop := mk_tinv {
+Record tinv (pre : page -> Prop) (log2 : N) (A : list page) (t : table) : Prop := mk_tinv {
   ti_wf : wf_table t;
   ti_log2 : tb_log2 t = log2;
   ti_lt : log2 < 64;
-  ti_frames : forall x, inpages t x -> frame log2 x;
   ti_alloc_in : forall a, In a A -> inpages t a;
-  ti_distinct : forall a q, In a A -> inpages t q -> ~ key_eq a q -> pg_paddr a <> pg_paddr q }.
+  ti_aframe : forall a, In a A -> pg_size a = 2 ^ log2 /\ pg_paddr a mod 2 ^ log2 = 0;
+  ti_cover : alias_ok log2 t;
+  ti_disj : forall a q, In a A -> inpages t q -> ~ key_eq a q -> disjoint a q;
+  (* every page of the table was pre-inserted or auto-allocated *)
+  ti_origin : forall q, inpages t q -> In q A \/ pre q }.
+
+Lemma aligned_apart g c c' : 0 < g -> c mod g = 0 -> c' mod g = 0 -> c <> c' -> c + g <= c' \/ c' + g <= c.
+Proof.
+  intros Hg H1 H2 Hne. apply N.mod_divide in H1; [|lia]. apply N.mod_divide in H2; [|lia].
+  destruct H1 as [k1 ->]. destruct H2 as [k2 ->]. assert (k1 <> k2) by congruence. nia.
+Qed.
 
 (** the mappings of [t] are kept by [t'] *)
 Definition ext (t t' : table) : Prop := forall pid va x, abs t pid va = Some x -> abs t' pid va = Some x.
@@ -119,17 +143,17 @@ Definition same_cfg (m m' : mmu) : Prop :=
 Lemma same_cfg_refl m : same_cfg m m.
 Proof. repeat split. Qed.
 
-Lemma resolve_spec o m q oc m' op : valid_oracle o -> m_auto m = true ->
-  tinv (m_log2 m) (m_alloc m) (m_tab m) ->
+Lemma resolve_spec pre o m q oc m' op : valid_oracle o -> m_auto m = true ->
+  tinv pre (m_log2 m) (m_alloc m) (m_tab m) ->
   resolve o m q = (oc, m', op) ->
   (oc = Ok \/ oc = Hang) /\
   (oc = Ok -> exists x, op = Some x /\ same_cfg m m' /\
-              tinv (m_log2 m) (m_alloc m') (m_tab m') /\ ext (m_tab m) (m_tab m') /\
+              tinv pre (m_log2 m) (m_alloc m') (m_tab m') /\ ext (m_tab m) (m_tab m') /\
               abs (m_tab m') (q_pid q) (align (m_log2 m) (q_va q)) = Some x) /\
   (oc <> Ok -> m' = m).
 Proof.
   intros V Au T. unfold resolve.
-  pose proof (ti_wf _ _ _ T) as W. pose proof (ti_log2 _ _ _ T) as L. pose proof (ti_lt _ _ _ T) as Hlt.
+  pose proof (ti_wf _ _ _ _ T) as W. pose proof (ti_log2 _ _ _ _ T) as L. pose proof (ti_lt _ _ _ _ T) as Hlt.
   destruct (find_step_facts o (m_tab m) (q_pid q) (q_va q) W) as [W1 [L1 [R1 V1]]].
   destruct (step o (m_tab m) (OFind (q_pid q) (q_va q))) as [t1 r]. cbn [fst snd] in W1, L1, R1, V1.
   rewrite L in R1. subst r.
@@ -139,9 +163,12 @@ Proof.
     intros _. exists x. split; [reflexivity|]. cbn [m_alloc m_tab]. split; [unfold same_cfg; cbn; rewrite ?Au; repeat split|].
     split; [|split].
     + constructor; try assumption; try congruence.
-      * intros y Hy. apply (ti_frames _ _ _ T). apply (inpages_vget_eq _ _ y V1). exact Hy.
-      * intros a Ha. apply (inpages_vget_eq _ _ a V1). apply (ti_alloc_in _ _ _ T a Ha).
-      * intros a y Ha Hy. apply (ti_distinct _ _ _ T a y Ha). apply (inpages_vget_eq _ _ y V1). exact Hy.
+      * intros a Ha. apply (inpages_vget_eq _ _ a V1). apply (ti_alloc_in _ _ _ _ T a Ha).
+      * apply (ti_aframe _ _ _ _ T).
+      * intros y Hy c Hc Hm. apply (inpages_vget_eq _ _ y V1) in Hy.
+        destruct (ti_cover _ _ _ _ T y Hy c Hc Hm) as [q' [Hq' Hp]]. exists q'. split; [apply (inpages_vget_eq _ _ q' V1); exact Hq'|exact Hp].
+      * intros a y Ha Hy. apply (ti_disj _ _ _ _ T a y Ha). apply (inpages_vget_eq _ _ y V1). exact Hy.
+      * intros y Hy. apply (ti_origin _ _ _ _ T). apply (inpages_vget_eq _ _ y V1). exact Hy.
     + intros pid va y Hy. rewrite (abs_vget_eq _ _ V1). exact Hy.
     + rewrite (abs_vget_eq _ _ V1). exact A.
   - (* miss: allocate *)
@@ -169,17 +196,34 @@ Proof.
       assert (FreeM : forall y, inpages (m_tab m) y -> pg_paddr y <> c).
       { intros y Hy. apply Free. apply (inpages_vget_eq _ _ y V1). exact Hy. }
       split; [|split].
-      * constructor; try assumption; try congruence.
-        -- intros y Hy. apply IP in Hy. destruct Hy as [->|Hy]; [|apply (ti_frames _ _ _ T y Hy)].
-           unfold frame, p, default_page. cbn [pg_size pg_paddr pg_vaddr].
-           split; [apply psize_lt; exact Hlt|split; [exact Cm|apply align_mod; exact Hlt]].
-        -- intros a Ha. apply IP. apply in_app_or in Ha. destruct Ha as [Ha|[<-|[]]]; [right; apply (ti_alloc_in _ _ _ T a Ha)|left; reflexivity].
+      * assert (Hpos : 0 < 2 ^ m_log2 m) by (apply N.neq_0_lt_0, N.pow_nonzero; lia).
+        assert (Psz : pg_size p = 2 ^ m_log2 m) by (unfold p, default_page; cbn [pg_size]; apply psize_lt; exact Hlt).
+        assert (Ppa : pg_paddr p = c) by reflexivity.
+        constructor; try assumption; try congruence.
+        -- intros a Ha. apply IP. apply in_app_or in Ha. destruct Ha as [Ha|[<-|[]]]; [right; apply (ti_alloc_in _ _ _ _ T a Ha)|left; reflexivity].
+        -- intros a Ha. apply in_app_or in Ha. destruct Ha as [Ha|[<-|[]]]; [apply (ti_aframe _ _ _ _ T a Ha)|].
+           split; [exact Psz|rewrite Ppa; exact Cm].
+        -- (* the condition is inductive: the new page is a frame *)
+           intros y Hy c' Hc' [M1 M2]. apply IP in Hy. destruct Hy as [->|Hy].
+           ++ exists p. split; [apply IP; left; reflexivity|]. rewrite Ppa. rewrite Ppa, Psz in M1. rewrite Ppa in M2.
+              destruct (N.eq_dec c c') as [E|E]; [exact E|exfalso].
+              destruct (aligned_apart _ c c' Hpos Cm Hc' E); lia.
+           ++ destruct (ti_cover _ _ _ _ T y Hy c' Hc' (conj M1 M2)) as [q' [Hq' Hp']].
+              exists q'. split; [apply IP; right; exact Hq'|exact Hp'].
         -- intros a y Ha Hy Hk. apply IP in Hy. apply in_app_or in Ha.
            destruct Ha as [Ha|[<-|[]]]; destruct Hy as [->|Hy].
-           ++ pose proof (FreeM a (ti_alloc_in _ _ _ T a Ha)) as Hf. unfold p, default_page. cbn [pg_paddr]. exact Hf.
-           ++ apply (ti_distinct _ _ _ T a y Ha Hy Hk).
+           ++ (* an older auto-allocated frame and the new one *)
+              destruct (ti_aframe _ _ _ _ T a Ha) as [Sa Pa]. pose proof (FreeM a (ti_alloc_in _ _ _ _ T a Ha)) as Hf.
+              unfold disjoint. rewrite Sa, Psz, Ppa. apply (aligned_apart _ _ _ Hpos Pa Cm Hf).
+           ++ apply (ti_disj _ _ _ _ T a y Ha Hy Hk).
            ++ exfalso. apply Hk. split; reflexivity.
-           ++ pose proof (FreeM y Hy) as Hf. unfold p, default_page. cbn [pg_paddr]. congruence.
+           ++ (* the new frame and an older page: an overlap would make the frame a mapped PAddr *)
+              unfold disjoint. rewrite Psz, Ppa.
+              destruct (N.le_gt_cases (c + 2 ^ m_log2 m) (pg_paddr y)) as [LL|G1]; [left; exact LL|].
+              destruct (N.le_gt_cases (pg_paddr y + pg_size y) c) as [LL|G2]; [right; exact LL|exfalso].
+              destruct (ti_cover _ _ _ _ T y Hy c Cm (conj G2 G1)) as [q' [Hq' Hp']]. apply (FreeM q' Hq' Hp').
+        -- intros y Hy. apply IP in Hy. destruct Hy as [->|Hy]; [left; apply in_or_app; right; left; reflexivity|].
+           destruct (ti_origin _ _ _ _ T y Hy) as [O|O]; [left; apply in_or_app; left; exact O|right; exact O].
       * intros pid va y Hy. unfold abs. rewrite V2. destruct (pg_pid p =? pid) eqn:E.
         -- assert (pid = pg_pid p) by lia. subst pid. rewrite l_find_app.
            fold (abs t1 (pg_pid p) va). rewrite (abs_vget_eq _ _ V1). rewrite Hy. reflexivity.
